@@ -86,7 +86,6 @@ def decode(val: t.Any, *, encoding: str = constants.DEFAULT_ENCODING) -> t.Any:
     return val
 
 
-@compat.lru_cache(maxsize=100_000)
 def isoformat(dt: datetime.date | datetime.time | datetime.timedelta) -> str:
     """Format any date/time object into an ISO-8601 string.
 
@@ -110,9 +109,15 @@ def isoformat(dt: datetime.date | datetime.time | datetime.timedelta) -> str:
         'PT1H'
     """
     if isinstance(dt, (datetime.date, datetime.time)):
+        # Not memoized: equal instants with different offsets compare (and hash) equal.
         return dt.isoformat()
+    return _isoduration(dt)
+
+
+@compat.lru_cache(maxsize=100_000)
+def _isoduration(td: datetime.timedelta) -> str:
     # Exact integer arithmetic on the normalized fields of the timedelta.
-    total = (dt.days * 86_400 + dt.seconds) * 1_000_000 + dt.microseconds
+    total = (td.days * 86_400 + td.seconds) * 1_000_000 + td.microseconds
     sign, total = ("-", -total) if total < 0 else ("", total)
     seconds, micros = divmod(total, 1_000_000)
     minutes, seconds = divmod(seconds, 60)
